@@ -193,6 +193,15 @@ def check_prop(prop, replay=None):
             path = replay or vlib.save_replay(prop, "disk", {"doc": doc, "guard": info["guard"], "crash": crash[-1] if crash else None,
                                                               "context": ctx[-10:]})
             out.violation(path, f"guard={info['guard']} crash={crash[-1] if crash else None} last={json.dumps(ctx[-1])[:300]}")
+    if prop == "C08" and not replay:
+        # sequential histories with reopen / verifier passes, including the pinned ones in which a compaction re-creates
+        # one of its own inputs (a file name both removed and added by one edit): orphan clean-up on open and the
+        # verifier's unlinking must leave every listed file in place (Trace_Tree: no read fails or changes afterwards)
+        import p_tree
+        hdocs = p_tree.regression_histories() + [p_tree.gen_history(rng, 100 + i, "kvs", 80, "C05") for i in range(8 if vlib.tier() == "quick" else 80)]
+        for f in p_tree.run_and_validate(out, wd, hdocs, "c8h", vlib.open_deviations({"C01", "C03", "C04", "C05", "C08"}), prop):
+            path = vlib.save_replay(prop, "store-history", {"doc": f["doc"], "matched": f["matched"], "guard": f.get("guard"), "violated": f["violated"], "event": f["event"]})
+            out.violation(path, f"violated={f['violated']} guard={f.get('guard')} at event {f['matched']}: {p_tree.summarize_event(f['event'])}")
     out.samples = [json.dumps(d, separators=(",", ":"))[:500] for d in docs[:2]]
     out.extra["rule"] = ("seeded store histories (put/del/batch/flush/compaction steps/verifier passes/reopen, option grid incl. frequent manifest "
                          "roll-over) under the syscall shim: fault-free run, crash before every mutating call in models (a) and (b), EIO and ENOSPC "
